@@ -288,7 +288,7 @@ func (e *SpecEnv) tryIdent(name string) (Val, bool) {
 		}
 	}
 	if v, ok := e.vars[name]; ok {
-		return v, true
+		return e.derefSrc(v), true
 	}
 	for _, l := range e.lets {
 		if l.Name == name {
